@@ -57,12 +57,21 @@ class Rec(object):
 
 DOIT_CONFIG = {'dep_file': SC['dep_file'], 'backend': SC['backend'], 'verbosity': 0, 'reporter': Rec}
 
+EXC = {'KeyboardInterrupt': KeyboardInterrupt, 'SystemExit': SystemExit}
+
+def mk_td(name):
+    def td():
+        ev(ev='teardown', t=name)
+        if INTR.startswith(name + ':teardown:'):
+            raise EXC[INTR.split(':')[2]]()
+        return True
+    return td
+
 def mk(name, spec):
     def act():
         ev(ev='start', t=name)
-        if INTR.startswith(name + ':'):
-            kind = INTR.split(':', 1)[1]
-            raise {'KeyboardInterrupt': KeyboardInterrupt, 'SystemExit': SystemExit}[kind]()
+        if INTR.startswith(name + ':') and ':teardown:' not in INTR:
+            raise EXC[INTR.split(':')[-1]]()
         ok = name not in SC['failing']
         ev(ev='end', t=name, ok=ok, digest=digest(spec['file_dep']))
         return ok
@@ -71,8 +80,11 @@ def mk(name, spec):
 def gen():
     for name, spec in SC['tasks'].items():
         def creator(name=name, spec=spec):
-            return {'basename': name, 'actions': [mk(name, spec)], 'file_dep': spec['file_dep'],
-                    'task_dep': spec['task_dep']}
+            d = {'basename': name, 'actions': [mk(name, spec)], 'file_dep': spec['file_dep'],
+                 'task_dep': spec['task_dep']}
+            if spec.get('teardown'):
+                d['teardown'] = [mk_td(name)]
+            return d
         creator.__name__ = 'task_' + name
         yield creator
 
@@ -134,7 +146,8 @@ def gen_scenario(rng, mode):
         deps = ['src_%d' % i]
         if i and rng.random() < 0.3:
             deps.append('src_%d' % rng.randrange(i))      # a shared source
-        tasks[nm] = {'file_dep': deps, 'task_dep': [names[j] for j in range(i) if rng.random() < 0.35]}
+        tasks[nm] = {'file_dep': deps, 'task_dep': [names[j] for j in range(i) if rng.random() < 0.35],
+                     'teardown': rng.random() < 0.4}
     backend = rng.choice(BACKENDS)
     runner = rng.choices(['serial', 'process2', 'thread2'], [6, 1, 2])[0]
     pre = rng.choice(['none', 'run', 'run+edit', 'run+edit']) if mode == 'kill' else rng.choice(['none', 'run+edit'])
@@ -145,7 +158,14 @@ def gen_scenario(rng, mode):
     if mode == 'interrupt':
         # interrupt a task that will really execute: any task without prior DB, an edited one otherwise
         cands = names if pre == 'none' else [names[i] for i in edits]
-        sc['interrupt'] = '%s:%s' % (rng.choice(cands), rng.choice(['KeyboardInterrupt', 'SystemExit']))
+        ti = rng.choice(cands)
+        where = 'action'
+        if rng.random() < 0.3:
+            # interrupt inside a teardown action (runs from finish(), after the flush)
+            tasks[ti]['teardown'] = True
+            where = 'teardown'
+            sc['failing'] = [f for f in failing if f != ti]
+        sc['interrupt'] = '%s:%s:%s' % (ti, where, rng.choice(['KeyboardInterrupt', 'SystemExit']))
     return sc
 
 
